@@ -211,6 +211,21 @@ func judge(res *core.Result, w *env.World, ops []opRun, scen, driverKind, word s
 				shape = "it proceeded although a concurrent op had successfully created the same revision (see double-create)"
 			}
 			if shape == "" {
+				// did it hold an in-flight revision record at the same time as another op?
+				for _, c := range own {
+					for _, k := range keys {
+						for _, c2 := range creates[k] {
+							if c2.o == o {
+								continue
+							}
+							if (c2.e.Seq > c.e.Seq && inFlight(o, c2.e.Seq)) || (c.e.Seq > c2.e.Seq && inFlight(c2.o, c.e.Seq)) {
+								shape = "both proceeded: it held an in-flight revision record at the same time as a concurrent " + opLabel(c2.o.op)
+							}
+						}
+					}
+				}
+			}
+			if shape == "" {
 				// the op's last rejected call
 				for i := len(events) - 1; i >= 0; i-- {
 					ev := events[i]
